@@ -7,6 +7,7 @@ import (
 	"fmt"
 	"go/constant"
 	"go/token"
+	"regexp"
 	"sort"
 	"strings"
 	"unicode/utf8"
@@ -211,6 +212,7 @@ func checkC17(p *Prog, r *Report) {
 
 	ruleC17JS(p, a, r)
 	ruleC17URL(p, a, r)
+	ruleC17Strip(p, a, r)
 
 	// ---- safe
 	r.Begin("R-C17-SAFE", "safe returns its input itself, unchanged, with a nil error", 1)
@@ -712,4 +714,87 @@ func varargValues(v ssa.Value) []ssa.Value {
 		out[i] = vals[int64(i)]
 	}
 	return out
+}
+
+// ruleC17Strip: striptags removes what one constant regular expression matches, in one pass. The pattern is read from
+// the source and its effect is decided on ALL strings up to length 7 over the alphabet {<, >, a, /, space}: the result
+// of removing every match must not contain a complete tag (a '<' … '>' pair without angle brackets in between) —
+// e.g. an innermost-match pattern glues `<scr<i>ipt>` together into `<script>`. (The pattern is a constant; evaluating
+// what it denotes is table evaluation, no code of the engine is run.)
+func ruleC17Strip(p *Prog, a *Anchors, r *Report) {
+	r.Begin("R-C17-STRIP", "striptags: one ReplaceAllString(pattern, \"\") over the input; for every string up to length 7 over {<,>,a,/,space} the result contains no complete tag", 2)
+	f := a.FilterFuncs["striptags"]
+	if f == nil {
+		r.Unk("registry:striptags", "-", "anchor unresolved")
+		return
+	}
+	var calls []*ssa.Call
+	for _, b := range f.Blocks {
+		for _, in := range b.Instrs {
+			if c, ok := in.(*ssa.Call); ok && c.Common().StaticCallee() != nil && strings.HasPrefix(p.extName(c.Common().StaticCallee()), "(*regexp.Regexp).") {
+				calls = append(calls, c)
+			}
+		}
+	}
+	if len(calls) != 1 || p.extName(calls[0].Common().StaticCallee()) != "(*regexp.Regexp).ReplaceAllString" {
+		r.Unk("striptags:shape", p.Pos(f.Pos()), "expected exactly one (*regexp.Regexp).ReplaceAllString call, found %d regexp calls", len(calls))
+		return
+	}
+	c := calls[0]
+	args := c.Common().Args
+	repl, isC := constString(args[2])
+	if !isInputString(p, f, args[1]) || !isC || repl != "" {
+		r.Bad("striptags:shape", p.InstrPos(c), "the pattern is not applied to the input string with the empty replacement (src %s, repl %s)", p.VN(args[1]), p.VN(args[2]))
+		return
+	}
+	r.OK("striptags:shape", p.InstrPos(c), "ReplaceAllString(in.String(), \"\")")
+	// the pattern
+	pat := ""
+	if u, ok := args[0].(*ssa.UnOp); ok {
+		if g, ok := u.X.(*ssa.Global); ok {
+			if ic := globalInitCall(p, g); ic != nil && ic.Common().StaticCallee() != nil && strings.HasPrefix(p.extName(ic.Common().StaticCallee()), "regexp.MustCompile") {
+				pat, _ = constString(ic.Common().Args[0])
+			}
+		}
+	}
+	if ic, ok := args[0].(*ssa.Call); ok && ic.Common().StaticCallee() != nil && strings.HasPrefix(p.extName(ic.Common().StaticCallee()), "regexp.MustCompile") {
+		pat, _ = constString(ic.Common().Args[0])
+	}
+	if pat == "" {
+		r.Unk("striptags:pattern", p.InstrPos(c), "the pattern is not a constant compiled by regexp.MustCompile (%s)", p.VN(args[0]))
+		return
+	}
+	re, err := regexp.Compile(pat)
+	if err != nil {
+		r.Bad("striptags:pattern", p.InstrPos(c), "pattern %q does not compile: %v", pat, err)
+		return
+	}
+	tag := regexp.MustCompile("<[^<>]*>")
+	alphabet := []byte("<>a/ ")
+	var witness, witnessOut string
+	n := 0
+	var gen func(buf []byte, left int)
+	gen = func(buf []byte, left int) {
+		if witness != "" {
+			return
+		}
+		n++
+		out := re.ReplaceAllString(string(buf), "")
+		if tag.MatchString(out) {
+			witness, witnessOut = string(buf), out
+			return
+		}
+		if left == 0 {
+			return
+		}
+		for _, ch := range alphabet {
+			gen(append(buf, ch), left-1)
+		}
+	}
+	gen(nil, 7)
+	if witness != "" {
+		r.Bad("striptags:pattern", p.InstrPos(c), "pattern %q: striptags(%q) = %q still contains a complete tag", pat, witness, witnessOut)
+	} else {
+		r.OK("striptags:pattern", p.InstrPos(c), "pattern %q leaves no complete tag on any of %d strings up to length 7", pat, n)
+	}
 }
